@@ -199,8 +199,11 @@ func fnName(f *ssa.Function) string {
 	return s
 }
 
+// withElems names the elements of a container location; elements of elements get one more
+// "[]" (rule slots of Policy are Policy[], the strings of a rule are Policy[][]), deeper
+// nesting is merged.
 func withElems(s string) string {
-	if strings.HasSuffix(s, "[]") {
+	if strings.HasSuffix(s, "[][]") {
 		return s
 	}
 	return s + "[]"
